@@ -1,10 +1,11 @@
 /-
   C11 — results do not depend on worker count or scheduling (report-stream level).
   Any schedule of N workers delivers the same multiset of reports in some order, so the statement is
-  permutation invariance of the pipeline insert → sort → dedup.  It is proved under two decidable
-  hypotheses about the report stream, which the harness monitors on real runs:
-    E  : on this stream `isEqual` is plain equality (identical or nothing);
-    Ord: on this stream the Go comparator is a total order (total, transitive, antisymmetric).
+  permutation invariance of the pipeline insert → sort → dedup: `C11_holds`, with no hypothesis on the stream,
+  for the code after the C11 `fix:` commit (folding and sorting are one total comparison).
+  The older, conditional theorems are kept: `C11_partial` / `C11_schedules` hold for ANY `isEqual` / comparator
+  that satisfies the decidable hypotheses E (isEqual is equality on the stream) and Ord (total order on the
+  stream) — they are what was true of the pinned code, and the monitors are still evaluated on real runs.
   Data races and the Go scheduler are outside the model.
 -/
 import PintModel.Model.Report
@@ -423,18 +424,254 @@ theorem all_perm {β} (p : β → Bool) (l l' : List β) (h : l.Perm l') : l.all
 
 theorem sortDiags_perm (ds : List Diag) : (sortDiags ds).Perm ds := stableSort_perm _ ds
 
-theorem sameDiagnostics_sort (sa sb : List Diag) :
-    sameDiagnostics (sortDiags sa) (sortDiags sb) = sameDiagnostics sa sb := by
-  unfold sameDiagnostics
-  rw [(sortDiags_perm sa).length_eq, (sortDiags_perm sb).length_eq, all_perm _ _ _ (sortDiags_perm sa)]
-  congr 2
-  funext a
-  exact any_perm _ _ _ (sortDiags_perm sb)
+/-! ### the comparator is a total order (after the `fix:` commit that made folding and sorting one comparison)
+
+  `Good c`: `c` is a three-way comparison — antisymmetric in sign, transitive, and a zero means the two sides
+  compare alike against everything.  Closed under `orElse` chains, pull-backs, argument swap and `cmpList`. -/
+
+structure Good {β : Type} (c : β → β → Int) : Prop where
+  swap : ∀ a b, c a b = -(c b a)
+  zero : ∀ a b d, c a b = 0 → c a d = c b d
+  trans : ∀ a b d, c a b ≤ 0 → c b d ≤ 0 → c a d ≤ 0
+
+theorem Good.strict {β : Type} {c : β → β → Int} (g : Good c) (a b d : β) (h1 : c a b < 0) (h2 : c b d ≤ 0) : c a d < 0 := by
+  have hle := g.trans a b d (by omega) h2
+  by_cases h0 : c a d = 0
+  · -- then d and a compare alike: c d b = c a b < 0, so c b d > 0
+    have h3 : c d b = c a b := by
+      have := g.zero a d b h0
+      omega
+    have h4 := g.swap b d
+    omega
+  · omega
+
+theorem good_cmpInt {β : Type} (f : β → Int) : Good (fun a b => cmpInt (f a) (f b)) := by
+  refine ⟨?_, ?_, ?_⟩
+  · intro a b; unfold cmpInt; split <;> split <;> (try split) <;> omega
+  · intro a b d h
+    have hab : f a = f b := by
+      unfold cmpInt at h; split at h <;> (try split at h) <;> omega
+    simp only [hab]
+  · intro a b d h1 h2
+    unfold cmpInt at *
+    split at h1 <;> split at h2 <;> (try split at h1) <;> (try split at h2) <;> split <;> (try split) <;> omega
+
+theorem good_cmpNat {β : Type} (f : β → Nat) : Good (fun a b => cmpNat (f a) (f b)) := by
+  refine ⟨?_, ?_, ?_⟩
+  · intro a b; unfold cmpNat; split <;> split <;> (try split) <;> omega
+  · intro a b d h
+    have hab : f a = f b := by
+      unfold cmpNat at h; split at h <;> (try split at h) <;> omega
+    simp only [hab]
+  · intro a b d h1 h2
+    unfold cmpNat at *
+    split at h1 <;> split at h2 <;> (try split at h1) <;> (try split at h2) <;> split <;> (try split) <;> omega
+
+theorem good_flip {β : Type} {c : β → β → Int} (g : Good c) : Good (fun a b => c b a) := by
+  refine ⟨fun a b => g.swap b a, ?_, ?_⟩
+  · intro a b d h
+    have h' : c a b = 0 := by have := g.swap a b; omega
+    have := g.zero a b d h'
+    have s1 := g.swap d a
+    have s2 := g.swap d b
+    omega
+  · intro a b d h1 h2
+    exact g.trans d b a h2 h1
+
+theorem good_orElse {β : Type} {c₁ c₂ : β → β → Int} (g₁ : Good c₁) (g₂ : Good c₂) :
+    Good (fun a b => orElse (c₁ a b) (c₂ a b)) := by
+  refine ⟨?_, ?_, ?_⟩
+  · intro a b
+    have s1 := g₁.swap a b
+    have s2 := g₂.swap a b
+    unfold orElse
+    split <;> split <;> omega
+  · intro a b d h
+    have h1 : c₁ a b = 0 := by unfold orElse at h; split at h <;> omega
+    have h2 : c₂ a b = 0 := by unfold orElse at h; split at h <;> omega
+    simp only [g₁.zero a b d h1, g₂.zero a b d h2]
+  · intro a b d h1 h2
+    unfold orElse at *
+    by_cases hab : c₁ a b = 0
+    · have hz := g₁.zero a b d hab
+      have h1' : c₂ a b ≤ 0 := by simpa [hab] using h1
+      by_cases hbd : c₁ b d = 0
+      · have h2' : c₂ b d ≤ 0 := by simpa [hbd] using h2
+        have := g₂.trans a b d h1' h2'
+        rw [if_neg (by omega : ¬ c₁ a d ≠ 0)]
+        exact this
+      · have h2' : c₁ b d ≤ 0 := by simpa [hbd] using h2
+        rw [if_pos (by omega : c₁ a d ≠ 0)]
+        omega
+    · have h1' : c₁ a b < 0 := by
+        rw [if_pos hab] at h1; omega
+      have h2' : c₁ b d ≤ 0 := by
+        split at h2 <;> omega
+      have := g₁.strict a b d h1' h2'
+      rw [if_pos (by omega : c₁ a d ≠ 0)]
+      omega
+
+theorem good_pull {β γ : Type} {c : γ → γ → Int} (g : Good c) (f : β → γ) : Good (fun a b => c (f a) (f b)) :=
+  ⟨fun a b => g.swap _ _, fun a b d h => g.zero _ _ _ h, fun a b d h1 h2 => g.trans _ _ _ h1 h2⟩
+
+theorem cmpList_swap {β : Type} {c : β → β → Int} (g : Good c) : ∀ xs ys : List β, cmpList c xs ys = -(cmpList c ys xs)
+  | [], [] => by simp [cmpList]
+  | [], _ :: _ => by simp [cmpList]
+  | _ :: _, [] => by simp [cmpList]
+  | x :: xs, y :: ys => by
+    have ih := cmpList_swap g xs ys
+    have s := g.swap x y
+    simp only [cmpList, orElse]
+    split <;> split <;> omega
+
+theorem cmpList_zero {β : Type} {c : β → β → Int} (g : Good c) :
+    ∀ xs ys zs : List β, cmpList c xs ys = 0 → cmpList c xs zs = cmpList c ys zs
+  | [], [], _, _ => rfl
+  | [], _ :: _, _, h => by simp [cmpList] at h
+  | _ :: _, [], _, h => by simp [cmpList] at h
+  | x :: xs, y :: ys, zs, h => by
+    have h1 : c x y = 0 := by simp only [cmpList, orElse] at h; split at h <;> omega
+    have h2 : cmpList c xs ys = 0 := by simp only [cmpList, orElse] at h; split at h <;> omega
+    cases zs with
+    | nil => simp [cmpList]
+    | cons z zs =>
+      simp only [cmpList, g.zero x y z h1, cmpList_zero g xs ys zs h2]
+
+theorem cmpList_trans {β : Type} {c : β → β → Int} (g : Good c) :
+    ∀ xs ys zs : List β, cmpList c xs ys ≤ 0 → cmpList c ys zs ≤ 0 → cmpList c xs zs ≤ 0
+  | [], _, [], _, _ => by simp [cmpList]
+  | [], _, _ :: _, _, _ => by simp [cmpList]
+  | _ :: _, [], _, h, _ => by simp [cmpList] at h
+  | _ :: _, _ :: _, [], _, h => by simp [cmpList] at h
+  | x :: xs, y :: ys, z :: zs, h1, h2 => by
+    have ih := cmpList_trans g xs ys zs
+    simp only [cmpList] at *
+    -- the same case analysis as good_orElse, with the tails as second component
+    unfold orElse at *
+    by_cases hab : c x y = 0
+    · have hz := g.zero x y z hab
+      have h1' : cmpList c xs ys ≤ 0 := by simpa [hab] using h1
+      by_cases hbd : c y z = 0
+      · have h2' : cmpList c ys zs ≤ 0 := by simpa [hbd] using h2
+        have := ih h1' h2'
+        rw [if_neg (by omega : ¬ c x z ≠ 0)]
+        exact this
+      · have h2' : c y z ≤ 0 := by simpa [hbd] using h2
+        rw [if_pos (by omega : c x z ≠ 0)]
+        omega
+    · have h1' : c x y < 0 := by
+        rw [if_pos hab] at h1; omega
+      have h2' : c y z ≤ 0 := by
+        split at h2 <;> omega
+      have := g.strict x y z h1' h2'
+      rw [if_pos (by omega : c x z ≠ 0)]
+      omega
+
+theorem good_cmpList {β : Type} {c : β → β → Int} (g : Good c) : Good (cmpList c) :=
+  ⟨cmpList_swap g, cmpList_zero g, cmpList_trans g⟩
+
+theorem cmpList_eq {β : Type} {c : β → β → Int} (hc : ∀ a b, c a b = 0 → a = b) :
+    ∀ xs ys : List β, cmpList c xs ys = 0 → xs = ys
+  | [], [], _ => rfl
+  | [], _ :: _, h => by simp [cmpList] at h
+  | _ :: _, [], h => by simp [cmpList] at h
+  | x :: xs, y :: ys, h => by
+    have h1 : c x y = 0 := by simp only [cmpList, orElse] at h; split at h <;> omega
+    have h2 : cmpList c xs ys = 0 := by simp only [cmpList, orElse] at h; split at h <;> omega
+    rw [hc x y h1, cmpList_eq hc xs ys h2]
+
+theorem cmpInt_eq (a b : Int) (h : cmpInt a b = 0) : a = b := by
+  unfold cmpInt at h; split at h <;> (try split at h) <;> omega
+
+theorem cmpNat_eq (a b : Nat) (h : cmpNat a b = 0) : a = b := by
+  unfold cmpNat at h; split at h <;> (try split at h) <;> omega
+
+theorem orElse_zero (x y : Int) (h : orElse x y = 0) : x = 0 ∧ y = 0 := by
+  unfold orElse at h; split at h <;> omega
+
+theorem good_cmpDiags : Good cmpDiags := by
+  unfold cmpDiags
+  exact good_orElse (good_flip (good_cmpInt (fun x : Diag => x.firstCol))) (good_orElse (good_cmpInt (fun x : Diag => x.lastCol)) (good_cmpNat (fun x : Diag => x.msg)))
+
+theorem cmpDiags_eq (a b : Diag) (h : cmpDiags a b = 0) : a = b := by
+  unfold cmpDiags at h
+  obtain ⟨h1, h23⟩ := orElse_zero _ _ h
+  obtain ⟨h2, h3⟩ := orElse_zero _ _ h23
+  have e1 := cmpInt_eq _ _ h1
+  have e2 := cmpInt_eq _ _ h2
+  have e3 := cmpNat_eq _ _ h3
+  cases a; cases b; simp_all
+
+theorem good_cmpDiagnostics : Good (fun a b : Rep => cmpDiagnostics a.diags b.diags) := by
+  unfold cmpDiagnostics
+  exact good_pull (good_cmpList good_cmpDiags) (fun r : Rep => sortDiags r.diags)
+
+theorem good_cmpRules : Good cmpRules := by
+  unfold cmpRules
+  exact good_orElse (good_cmpInt (fun x : Rep => x.rFirst)) (good_orElse (good_cmpInt (fun x : Rep => x.rLast)) (good_orElse (good_cmpNat (fun x : Rep => x.ruleName)) (good_cmpNat (fun x : Rep => x.ruleKind))))
+
+theorem good_cmpReports : Good cmpReports := by
+  unfold cmpReports
+  exact good_orElse (good_cmpNat (fun x : Rep => x.pathName)) <| good_orElse (good_cmpInt (fun x : Rep => x.pFirst)) <| good_orElse (good_cmpInt (fun x : Rep => x.pLast)) <|
+    good_orElse (good_cmpNat (fun x : Rep => x.sev)) <| good_orElse (good_cmpNat (fun x : Rep => x.reporter)) <| good_orElse (good_cmpNat (fun x : Rep => x.summary)) <|
+    good_orElse good_cmpDiagnostics <| good_orElse (good_cmpNat (fun x : Rep => x.details)) <| good_orElse (good_cmpNat (fun x : Rep => x.anchor)) <|
+    good_orElse (good_cmpNat (fun x : Rep => x.owner)) <| good_orElse (good_cmpNat (fun x : Rep => x.pathTarget)) good_cmpRules
+
+/-- a zero of the comparator: every field is the same and the diagnostics are the same once sorted -/
+theorem cmpReports_zero (a b : Rep) (h : cmpReports a b = 0) :
+    { a with diags := sortDiags a.diags } = { b with diags := sortDiags b.diags } := by
+  unfold cmpReports at h
+  obtain ⟨e1, h⟩ := orElse_zero _ _ h
+  obtain ⟨e2, h⟩ := orElse_zero _ _ h
+  obtain ⟨e3, h⟩ := orElse_zero _ _ h
+  obtain ⟨e4, h⟩ := orElse_zero _ _ h
+  obtain ⟨e5, h⟩ := orElse_zero _ _ h
+  obtain ⟨e6, h⟩ := orElse_zero _ _ h
+  obtain ⟨e7, h⟩ := orElse_zero _ _ h
+  obtain ⟨e8, h⟩ := orElse_zero _ _ h
+  obtain ⟨e9, h⟩ := orElse_zero _ _ h
+  obtain ⟨e10, h⟩ := orElse_zero _ _ h
+  obtain ⟨e11, h⟩ := orElse_zero _ _ h
+  unfold cmpRules at h
+  obtain ⟨e12, h⟩ := orElse_zero _ _ h
+  obtain ⟨e13, h⟩ := orElse_zero _ _ h
+  obtain ⟨e14, e15⟩ := orElse_zero _ _ h
+  have d : sortDiags a.diags = sortDiags b.diags := cmpList_eq cmpDiags_eq _ _ e7
+  have := cmpNat_eq _ _ e1; have := cmpInt_eq _ _ e2; have := cmpInt_eq _ _ e3; have := cmpNat_eq _ _ e4
+  have := cmpNat_eq _ _ e5; have := cmpNat_eq _ _ e6; have := cmpNat_eq _ _ e8; have := cmpNat_eq _ _ e9
+  have := cmpNat_eq _ _ e10; have := cmpNat_eq _ _ e11; have := cmpInt_eq _ _ e12; have := cmpInt_eq _ _ e13
+  have := cmpNat_eq _ _ e14; have := cmpNat_eq _ _ e15
+  cases a; cases b; simp_all
+
+/-- the order of diagnostics inside a report is a total order on `Diag` -/
+theorem ordOn_diags (l : List Diag) : OrdOn (fun a b => decide (cmpDiags b a ≥ 0)) l := by
+  refine ⟨?_, ?_, ?_⟩
+  · intro a _ b _
+    have := good_cmpDiags.swap a b
+    simp only [decide_eq_true_eq]; omega
+  · intro a _ b _ d _ h1 h2
+    simp only [decide_eq_true_eq] at *
+    have s1 := good_cmpDiags.swap a b
+    have s2 := good_cmpDiags.swap b d
+    have s3 := good_cmpDiags.swap a d
+    have := good_cmpDiags.trans a b d (by omega) (by omega)
+    omega
+  · intro a _ b _ h1 h2
+    simp only [decide_eq_true_eq] at *
+    have s1 := good_cmpDiags.swap a b
+    exact cmpDiags_eq a b (by omega)
+
+/-- sorting sorted diagnostics changes nothing -/
+theorem sortDiags_idem (ds : List Diag) : sortDiags (sortDiags ds) = sortDiags ds := by
+  unfold sortDiags
+  exact stableSort_perm_invariant _ _ _ (stableSort_perm _ ds) (ordOn_diags _)
+
+theorem cmpReports_norm (a b : Rep) : cmpReports (norm a) (norm b) = cmpReports a b := by
+  simp only [cmpReports, cmpRules, cmpDiagnostics, norm, sortDiags_idem]
 
 /-- `isEqual` does not look at the order of diagnostics -/
 theorem isEqual_norm (a b : Rep) : isEqual (norm a) (norm b) = isEqual a b := by
-  simp only [isEqual, norm, sameDiagnostics_sort]
-  try rfl
+  simp only [isEqual, cmpReports_norm]
 
 theorem insertAll_map_norm (l acc : List Rep) :
     (l.map norm).foldl insertRep (acc.map norm) = (l.foldl insertRep acc).map norm := by
@@ -558,24 +795,78 @@ theorem monitors_sound (s : List Rep) (h1 : eqOnB s = true) (h2 : ordOnB s = tru
       · rw [hba] at h; cases h
       · exact h
 
-/-- the full statement is false of the code as modelled: `isEqual` compares the first report's problem
-    range with the second report's RULE range, so which of two such reports survives insertion depends
-    on which arrives first (witness; whether real checks can emit such a pair is what the monitor decides) -/
-def wA : Rep := ⟨0, 0, 0, 1, 5, 1, 5, 0, 0, 0, 0, 1, []⟩
-def wB : Rep := ⟨0, 0, 0, 1, 3, 1, 5, 0, 0, 0, 1, 1, []⟩
+/-! ### C11 at full strength
 
-theorem C11_not_full : ¬ C11_statement := by
-  intro h
-  have := h [wA, wB] [wB, wA] (List.Perm.swap wB wA [])
-  revert this
-  decide
+  Before the `fix:` commit that made `isEqual` and the sort one comparison the full statement was FALSE of the code
+  (`isEqual` compared one report's problem range with the other report's rule range, ignored details and rule names,
+  the comparator was not total): this file carried `C11_not_full : ¬ C11_statement` with the witness below, and
+  defect-hunting agents then produced the same failures with real checks (hunt/C11).  After the fix it is a theorem. -/
 
-/-- non-vacuity of `C11_partial`: three distinct reports, one arriving twice, satisfy E and Ord -/
-def d1 : Rep := ⟨0, 0, 0, 1, 5, 1, 5, 0, 2, 0, 0, 1, [⟨1, 3, 0⟩]⟩
-def d2 : Rep := ⟨0, 0, 0, 7, 9, 7, 9, 0, 1, 0, 0, 2, [⟨1, 3, 0⟩, ⟨4, 6, 1⟩]⟩
-def d3 : Rep := ⟨1, 1, 0, 1, 5, 1, 5, 0, 2, 0, 0, 1, [⟨1, 3, 0⟩]⟩
+theorem norm_norm (r : Rep) : norm (norm r) = norm r := by
+  simp only [norm, sortDiags_idem]
 
-theorem demo : pipeline [d1, d2, d3, d1] = pipeline [d3, d1, d1, d2] ∧ (pipeline [d1, d2, d3, d1]).map (·.1) = [norm d1, norm d2, norm d3] := by
+/-- on reports with sorted diagnostics `isEqual` is equality -/
+theorem eqOn_norm (s : List Rep) : EqOn (s.map norm) := by
+  intro a ha b hb hab
+  obtain ⟨a', _, rfl⟩ := List.mem_map.1 ha
+  obtain ⟨b', _, rfl⟩ := List.mem_map.1 hb
+  have h0 : cmpReports (norm a') (norm b') = 0 := by simpa [isEqual] using hab
+  have := cmpReports_zero _ _ h0
+  have e : ∀ r : Rep, ({ norm r with diags := sortDiags (norm r).diags } : Rep) = norm r := by
+    intro r; simp only [norm, sortDiags_idem]
+  rw [e a', e b'] at this
+  exact this
+
+/-- on reports with sorted diagnostics the comparator is a total order -/
+theorem ordOn_norm (s : List Rep) : OrdOn leRep (s.map norm) := by
+  refine ⟨?_, ?_, ?_⟩
+  · intro a _ b _
+    have := good_cmpReports.swap a b
+    simp only [leRep, decide_eq_true_eq]; omega
+  · intro a _ b _ d _ h1 h2
+    simp only [leRep, decide_eq_true_eq] at *
+    have s1 := good_cmpReports.swap a b
+    have s2 := good_cmpReports.swap b d
+    have s3 := good_cmpReports.swap a d
+    have := good_cmpReports.trans a b d (by omega) (by omega)
+    omega
+  · intro a ha b hb h1 h2
+    simp only [leRep, decide_eq_true_eq] at h1 h2
+    have s1 := good_cmpReports.swap a b
+    exact eqOn_norm s a ha b hb (by simp only [isEqual, decide_eq_true_eq]; omega)
+
+theorem pipe2_perm (t₁ t₂ : List Rep) (hperm : t₁.Perm t₂) (he : EqOn t₁) (ho : OrdOn leRep t₁) : pipe2 t₁ = pipe2 t₂ := by
+  have hsort : stableSort leRep (insertAll t₁) = stableSort leRep (insertAll t₂) := by
+    apply stableSort_perm_invariant leRep _ _ (insertAll_perm t₁ t₂ hperm he)
+    have hsub : ∀ x ∈ insertAll t₁, x ∈ t₁ := fun x hx => (mem_insertAll t₁ he x).1 hx
+    exact ⟨fun a ha b hb => ho.total a (hsub a ha) b (hsub b hb),
+           fun a ha b hb c hc => ho.trans a (hsub a ha) b (hsub b hb) c (hsub c hc),
+           fun a ha b hb => ho.antisymm a (hsub a ha) b (hsub b hb)⟩
+  unfold pipe2
+  simp only [hsort]
+
+/-- **C11**: for every stream of reports, every arrival order (every worker count, every interleaving — any
+permutation at all, not only those that keep a job's own order) gives the same sorted, folded, duplicate-marked list:
+what every reporter and the exit status are computed from.  No hypothesis on the stream. -/
+theorem C11_holds : C11_statement := by
+  intro s₁ s₂ hperm
+  rw [pipeline_eq_pipe2, pipeline_eq_pipe2]
+  exact pipe2_perm _ _ (hperm.map norm) (eqOn_norm s₁) (ordOn_norm s₁)
+
+/-- the witness that used to refute the statement: same path, problem 1-5 vs 1-3 on a rule 1-5, different details -/
+def wA : Rep := ⟨0, 0, 0, 1, 5, 1, 5, 0, 0, 0, 0, 0, 0, 1, []⟩
+def wB : Rep := ⟨0, 0, 0, 1, 3, 1, 5, 0, 0, 0, 0, 1, 0, 1, []⟩
+
+example : pipeline [wA, wB] = pipeline [wB, wA] ∧ (pipeline [wA, wB]).length = 2 := by decide
+
+/-- non-vacuity: three distinct reports, one arriving twice, diagnostics in two orders -/
+def d1 : Rep := ⟨0, 0, 0, 1, 5, 1, 5, 0, 0, 2, 0, 0, 0, 1, [⟨1, 3, 0⟩]⟩
+def d2 : Rep := ⟨0, 0, 0, 7, 9, 7, 9, 1, 0, 1, 0, 0, 0, 2, [⟨1, 3, 0⟩, ⟨4, 6, 1⟩]⟩
+def d2' : Rep := ⟨0, 0, 0, 7, 9, 7, 9, 1, 0, 1, 0, 0, 0, 2, [⟨4, 6, 1⟩, ⟨1, 3, 0⟩]⟩
+def d3 : Rep := ⟨1, 1, 0, 1, 5, 1, 5, 0, 0, 2, 0, 0, 0, 1, [⟨1, 3, 0⟩]⟩
+
+theorem demo : pipeline [d1, d2, d3, d1, d2'] = pipeline [d3, d2', d1, d1, d2] ∧
+    (pipeline [d1, d2, d3, d1, d2']).map (·.1) = [norm d1, norm d2, norm d3] := by
   decide
 
 end Pint.Props.C11
